@@ -265,16 +265,18 @@ PROPS = {
         ],
     },
     "C20": {
-        "lean_modules": ["TableauVerif.Props.C20", "TableauVerif.Props.C20Civil"],
-        "oracles": ["c20.ts", "c20.gen"],
+        "lean_modules": ["TableauVerif.Props.C20", "TableauVerif.Props.C20Civil", "TableauVerif.Props.C20Dur"],
+        "oracles": ["c20.ts", "c20.gen", "c20.dur"],
         "streams": [
             ("corr.xproto.parseTime", 20000, 600000),
+            ("corr.xproto.duration", 20000, 400000),
             ("e2e.C20.location", 300, 12000),
         ],
         "assumptions": [
             "e2e.C20.location runs the real GenProto + GenConf with LocationName \"\" / \"Local\" / a zone name while the worker's machine zone (time.Local) is set to UTC, Kolkata, New_York or Lord_Howe; the reading of the option (\"\" = UTC, Local = machine zone) is the generator's, taken from the property text",
             "modelled: parseTimeWithLocation (layout choice, yyyyMMdd rewrite), time.ParseInLocation for the two layouts, time.Date's two-guess zone lookup, timestamppb.CheckValid; a location is its transition table, enumerated from Go's own zone database through Time.ZoneBounds (1950-2036) on every run",
-            "not modelled: fractional seconds (answered 'unmodelled'), local mean time before the table, the POSIX-TZ extension rule after 2036; durations and the EmitTimezones JSON rewrite are not yet covered by this check (partial)",
+            "durations / time-of-day cells: parseDuration's rewrites, time.ParseDuration (sign, segments, units, overflow checks) and durationpb.New are modelled (Model.Duration) and judged by Spec.C20Dur; fractions (1.5h) and non-ASCII input are answered 'unmodelled'",
+            "not modelled: fractional seconds (answered 'unmodelled'), local mean time before the table, the POSIX-TZ extension rule after 2036; the EmitTimezones JSON rewrite is exercised by C06's format stream, not modelled here (partial)",
         ],
     },
     "C12": {
@@ -308,9 +310,10 @@ PROPS = {
         ],
     },
     "C03": {
-        "lean_modules": ["TableauVerif.Props.C03", "TableauVerif.Props.C03Frac"],
-        "oracles": ["c03.parse", "c03.frac", "c03.cmp"],
+        "lean_modules": ["TableauVerif.Props.C03", "TableauVerif.Props.C03Frac", "TableauVerif.Props.C20Dur"],
+        "oracles": ["c03.parse", "c03.frac", "c03.cmp", "c20.dur"],
         "streams": [
+            ("corr.xproto.duration", 10000, 200000),
             ("corr.xproto.parseFieldValue", 60000, 1500000),
             ("corr.xproto.fraction", 30000, 400000),
         ],
